@@ -431,3 +431,69 @@ func VerifH_C11_relations() {
 		vAssert(vSame(r.Updates, want), "updates-are-exactly-the-later-versions")
 	}
 }
+
+// ---- pre-commit-time regime (no committed times: timestamps + threshold)
+
+const c11PreStart = int64(1104537600) // 2005-01-01
+const c11PreEnd = int64(1325376000)   // 2012-01-01 (before osm.CommitInfoStart)
+
+// VerifH_C11_preCommit: histories from before commit times were recorded. When no
+// child edit falls within the grouping threshold of a parent edit, the child that
+// was current is unambiguous (the latest version stamped before the parent), and
+// the same guarantees hold with timestamps in place of commit times.
+func VerifH_C11_preCommit() {
+	const eps = int64(30 * 60) // default threshold, seconds
+	nv := vRange("childVersions", 1, vParam("maxChildVersions", 2))
+	a := &c11Child{id: 100}
+	for i := 0; i < nv; i++ {
+		ts := vInt64("childTimestamp")
+		vAssume(vAnd(ts >= c11PreStart, ts < c11PreEnd))
+		if i > 0 {
+			vAssume(a.vers[i-1].committed < ts)
+		}
+		v := c11Ver{version: i + 1, committed: ts, cs: vInt64("childCS"), lat: vF64("lat"), lon: vF64("lon"), visible: true}
+		v.node = &osm.Node{ID: a.id, Version: v.version, ChangesetID: osm.ChangesetID(v.cs), Lat: v.lat, Lon: v.lon, Visible: true, Timestamp: time.Unix(ts, 0)}
+		a.vers = append(a.vers, v)
+	}
+	np := vRange("parents", 1, vParam("maxParents", 2))
+	var ways osm.Ways
+	var pts []int64
+	for i := 0; i < np; i++ {
+		ts := vInt64("parentTimestamp")
+		vAssume(vAnd(ts >= c11PreStart+3*eps, ts < c11PreEnd))
+		if i > 0 {
+			vAssume(pts[i-1]+3*eps < ts)
+		}
+		// no child edit within the threshold window around this parent edit
+		for _, v := range a.vers {
+			vAssume(vOr(v.committed < ts-2*eps, v.committed > ts+2*eps))
+		}
+		pts = append(pts, ts)
+		ways = append(ways, &osm.Way{ID: 7, Version: i + 1, Visible: true, ChangesetID: osm.ChangesetID(vInt64("parentCS")), Timestamp: time.Unix(ts, 0),
+			Nodes: osm.WayNodes{{ID: a.id}}})
+	}
+	// the child exists before the first parent version
+	vAssume(a.vers[0].committed < pts[0])
+	err := Ways(context.Background(), ways, &c11DS{children: []*c11Child{a}})
+	vReach("annotated")
+	vAssert(err == nil, "no-error")
+	if err != nil {
+		return
+	}
+	for pi, w := range ways {
+		next := c11PreEnd + 10*eps
+		if pi+1 < len(ways) {
+			next = pts[pi+1]
+		}
+		v := a.vers[a.cur(pts[pi])]
+		vAssert(vSame(w.Nodes[0], osm.WayNode{ID: a.id, Version: v.version, ChangesetID: osm.ChangesetID(v.cs), Lat: v.lat, Lon: v.lon}), "child-is-version-current-at-parent-timestamp")
+		var want osm.Updates
+		for i := range a.vers {
+			x := a.vers[i]
+			if x.committed > pts[pi] && x.committed < next {
+				want = append(want, osm.Update{Index: 0, Version: x.version, Timestamp: time.Unix(x.committed, 0), ChangesetID: osm.ChangesetID(x.cs), Lat: x.lat, Lon: x.lon})
+			}
+		}
+		vAssert(vSame(w.Updates, want), "updates-are-exactly-the-later-versions")
+	}
+}
